@@ -10,6 +10,7 @@ Streams (id prefix):
 __main__: generates, runs the Rust harness and the Lean driver, prints the number of cases / disagreements.
   --trees: C04 / C02 checks instead: `gen_wellformed` (stream p + unmutated stream w inputs that the real `parse` accepts),
   `check_trees` (implementation node dump -> verified checker TREECHK, tree compared with the reference parser REFPARSE).
+  --trivia: C18 parser half: `gen_trivia_pairs` (accepted input, same input with extra trivia), `same_tree`, `check_trivia`.
 """
 import itertools
 import os
@@ -424,6 +425,89 @@ def check_trees(cases, build=True):
     return classes
 
 
+# ------------------------------------------------------------------ C18 (parser half): trivia insensitivity
+
+TRIVIA = ('Whitespace', 'Annotation', 'LineAnnotation')
+
+
+def _ty(field):
+    return field.split(',', 1)[0]
+
+
+def trivia_positions(toks):
+    """insertion points i (insert before toks[i], 0 < i < len) where an extra trivia token must not change the tree:
+    next to an existing Whitespace token, directly after a binary operator, or between a value and a binary operator"""
+    gd = tables()['get_definition']
+    out = []
+    for i in range(1, len(toks)):
+        before, after = _ty(toks[i - 1]), _ty(toks[i])
+        sb, sa = gd[before][1], gd[after][1]
+        if before == 'Whitespace' or after == 'Whitespace':
+            out.append((i, 'ws-adjacent'))
+        elif sb in ('BinaryLeftToRight', 'BinaryRightToLeft') and sa in ('Value', 'Identifier', 'UnaryPrefix', 'StartGrouping'):
+            out.append((i, 'after-binop'))
+        elif sb in ('Value', 'Identifier') and sa in ('BinaryLeftToRight', 'BinaryRightToLeft'):
+            out.append((i, 'before-binop'))
+    return out
+
+
+def gen_trivia_pairs(seed, tier='quick'):
+    """pairs (row_a, row_b, kind): row_a an input the real `parse` accepts, row_b the same token list with 1-3 extra trivia
+    tokens inserted at `trivia_positions`; both rows are ['PARSE', id, tok..] with ids `<id>a` / `<id>b`"""
+    rng = random.Random(seed * 2654435761 % (1 << 31) + 7)
+    base = gen_wellformed(seed, tier)
+    pairs = []
+    for c in base:
+        toks = c[2:]
+        pos = trivia_positions(toks)
+        if not pos:
+            continue
+        new = list(toks)
+        kinds = set()
+        for i, kind in sorted(rng.sample(pos, min(len(pos), rng.choice((1, 1, 2, 3)))), reverse=True):
+            # inside the leading / trailing run of Whitespace / Subexpression tokens only Whitespace is neutral: an annotation
+            # there shields the run from `trim_tokens` (finding: `5 \n\n @a` keeps the trailing separator, dangling link)
+            edge = all(_ty(x) in ('Whitespace', 'Subexpression') for x in toks[i:]) or \
+                all(_ty(x) in ('Whitespace', 'Subexpression') for x in toks[:i])
+            if edge:
+                t = 'Whitespace'
+            elif kind == 'ws-adjacent':
+                t = rng.choice(TRIVIA)
+            else:
+                t = rng.choice(('Whitespace', 'Whitespace', 'Annotation'))
+            text = ' ' * rng.choice((1, 2, 3)) if t == 'Whitespace' else None
+            new.insert(i, tok(t, text))
+            kinds.add(kind + ':' + t)
+        pairs.append((['PARSE', c[1] + 'a'] + toks, ['PARSE', c[1] + 'b'] + new, '+'.join(sorted(kinds))))
+    return pairs
+
+
+def same_tree(res_a, res_b):
+    """two PARSE result lines describe the same tree: same outcome class, same root, and node for node the same
+    definition / secondary definition / parent / left / right (trivia tokens create no nodes, so node ids are the same);
+    token text and position are ignored, the token type too for synthesized List nodes (cloned from the previous token)"""
+    ha, hb = res_a.split('\t'), res_b.split('\t')
+    if not ha[0].startswith('ok root=') or not hb[0].startswith('ok root='):
+        return ha[0].split(' ')[0] == hb[0].split(' ')[0] and not ha[0].startswith('ok') and not hb[0].startswith('ok')
+    if ha[0] != hb[0] or len(ha) != len(hb):
+        return False
+    for na, nb in zip(ha[1:], hb[1:]):
+        fa, fb = na.split(',', 5), nb.split(',', 5)
+        if fa[:4] != fb[:4]:
+            return False
+        if not fa[0].startswith('List/') and fa[4] != fb[4]:
+            return False
+    return True
+
+
+def check_trivia(pairs, runner=None):
+    """run both rows of every pair (default: on the real implementation), return the pairs whose trees differ"""
+    runner = runner or (lambda rows: vlib.run_impl(rows, 'trivia'))
+    rows = [r for a, b, _ in pairs for r in (a, b)]
+    res = runner(rows)
+    return [(a, b, k, res.get(a[1]), res.get(b[1])) for a, b, k in pairs if not same_tree(res.get(a[1], '?'), res.get(b[1], '?'))]
+
+
 def analyse(result, case=None):
     """classification of a result: err class / improper features of the part of an `ok` node array that is
     reachable from the root through left/right (for reporting only)"""
@@ -492,6 +576,7 @@ def main():
     ap.add_argument('--show', type=int, default=20)
     ap.add_argument('--examples-n', dest='examples_n', type=int, default=3)
     ap.add_argument('--drv', default='', help='path of the Lean driver binary (default: the lake build of /verif/lean)')
+    ap.add_argument('--trivia', action='store_true', help='C18 parser half: trivia insertion pairs on the implementation and the model')
     ap.add_argument('--trees', action='store_true', help='C04 / C02 checks on accepted inputs instead of the PARSE comparison')
     ap.add_argument('--errclass', action='store_true', help='compare the error class (syntax / implementation) as well')
     ap.add_argument('--tokidx', action='store_true', help='PARSE comparison in `!tokidx` mode (nodes carry @<token position>)')
@@ -499,6 +584,25 @@ def main():
     a = ap.parse_args()
     if a.drv:
         vlib.DRV = a.drv
+    if a.trivia:
+        pairs = gen_trivia_pairs(a.seed, a.tier)
+        for name, runner in (('impl', None), ('model', lambda rows: vlib.run_model(rows, 'trivia'))):
+            bad = check_trivia(pairs, runner)
+            per = {}
+            for _, _, k, _, _ in bad:
+                per[k] = per.get(k, 0) + 1
+            print(f'trivia pairs={len(pairs)} on {name}: different trees={len(bad)} {per}')
+            seen = set()
+            for x, y, k, rx, ry in sorted(bad, key=lambda z: len(z[1])):
+                if k in seen:
+                    continue
+                seen.add(k)
+                print(f'   [{k}] {" ".join(x[2:])}  ->  {" ".join(y[2:])}')
+                print(f'        a: {str(rx)[:300]}')
+                print(f'        b: {str(ry)[:300]}')
+                if len(seen) >= a.show:
+                    break
+        return
     if a.trees:
         cases = gen_wellformed(a.seed, a.tier)
         classes = check_trees(cases)
